@@ -1593,7 +1593,7 @@ func (ex *Exec) invoke(recv Value, m *types.Func, args []Value) Value {
 		}
 		if strings.HasPrefix(op.Kind, "libval:") && m.Name() == "Error" {
 			msgs := map[string]string{"context.DeadlineExceeded": "context deadline exceeded", "context.Canceled": "context canceled", "io.EOF": "EOF",
-				"io.ErrUnexpectedEOF": "unexpected EOF", "net/http.ErrNoCookie": "http: named cookie not present", "net/http.ErrUseLastResponse": "net/http: use last response"}
+				"io.ErrUnexpectedEOF": "unexpected EOF", "net/http.ErrNoCookie": "http: named cookie not present", "net/http.ErrUseLastResponse": "net/http: use last response", "net/http.ErrNoLocation": "http: no Location header in response"}
 			if msg, ok := msgs[strings.TrimPrefix(op.Kind, "libval:")]; ok {
 				return StrLit(msg)
 			}
